@@ -328,6 +328,30 @@ func genC20(e *emitter, tier string, seed uint64) {
 			}
 		}
 	}
+	// the ordinal is an enriched inscription: OP_RETURN and a trailer of 0..5 serialised bytes after the envelope (the
+	// interpreter keeps the trailer as one opaque blob and must rebuild it byte for byte for the seller's signature)
+	for _, tail := range []string{"", "00", "012a", "02aabb", "0401020304", "6a6a", "ff"} { // decodable trailers only: with any other the output is non-standard and the signer refuses it
+		for _, variant := range []string{"1", "2"} {
+			seller, buyer := genKey(r), genKey(r)
+			lock := append(append([]byte{}, p2pkhOf(seller)...), mustHex("0063036f726451046161616100026869686a"+tail)...)
+			ou := mkU(seller, 1, lock)
+			price := uint64(1000 + r.n(5000))
+			us := []ordUTXO{mkU(buyer, price+2000, p2pkhOf(buyer)), mkU(buyer, 5000000, p2pkhOf(buyer)), mkU(buyer, 900, p2pkhOf(buyer))}
+			if variant == "2" {
+				us = []ordUTXO{mkU(buyer, 600, p2pkhOf(buyer)), mkU(buyer, 400, p2pkhOf(buyer)), mkU(buyer, price+2000, p2pkhOf(buyer)), mkU(buyer, 5000000, p2pkhOf(buyer))}
+			}
+			var ds []string
+			for _, u := range us {
+				ds = append(ds, descOrdUTXO(u))
+			}
+			res := e.run("C20.list", variant, "500/1000,1/4", descOrdUTXO(ou), fmt.Sprintf("%d:%s", price, hexE(p2pkhOf(seller))),
+				strings.Join(ds, "|"), hexE(p2pkhOf(buyer)), hexE(p2pkhOf(buyer)), hexE(p2pkhOf(genKey(r))))
+			e.note("flow.enriched.list." + strings.Fields(res)[0])
+			res = e.run("C20.bid", variant, "500/1000,1/4", descOrdUTXO(ou), fmt.Sprint(price), strings.Join(ds, "|"),
+				hexE(p2pkhOf(buyer)), hexE(p2pkhOf(buyer)), hexE(p2pkhOf(genKey(r))), hexE(p2pkhOf(seller)), ordPlaceholderHex, hexE(funnyScript()))
+			e.note("flow.enriched.bid." + strings.Fields(res)[0])
+		}
+	}
 	// the ordinal itself carries a large inscription (push-opcode boundaries 255/256, 65535/65536): the seller's input
 	// must still verify when the interpreter rebuilds the script code
 	for _, size := range []int{255, 256, 65535, 65536, 70000} {
